@@ -181,6 +181,7 @@ def applyOpt (k : Kind) (a : EArgs) (o : Opt) : Option EArgs :=
   | .proc, "leaf" => some (a.orNum 0 8)
   | .proc, "identical" => some (a.orNum 0 16)
   | .proc, "cache" => some { a with s := [a.s.getD 0 [] ++ [v 0]] }
+  | .proc, "set" => some (a.setNum (v 0) (v 1))                      -- direct write of a `pub` field
   | .cache, "next" => some (a.setNum 0 (v 0))
   | .cache, "size" => some ((a.setNum 1 (v 0)).orNum 7 1)
   | .cache, "sets" => some ((a.setNum 2 (v 0)).orNum 7 2)
